@@ -352,8 +352,16 @@ def report(ctx: click.Context, tjp_file: Optional[str], output_csv: bool, output
                 "This may indicate a scheduling issue with your project."
             )
 
-        # Get the primary output file (first one)
-        primary_output = output_files[0]
+        # Get the output of the auto-generated id/start/end report. The project may
+        # define reports of its own in the same format; they land in the same directory
+        # and must not be mistaken for it.
+        auto_outputs = [f for f in output_files if f.stem == auto_report_id]
+        if not auto_outputs:
+            raise ReportGenerationError(
+                "Report generation completed but the auto-generated report was not written. "
+                "This may indicate a scheduling issue with your project."
+            )
+        primary_output = auto_outputs[0]
 
         if verbose:
             logger.debug("Reading report from: %s", primary_output)
